@@ -7,6 +7,8 @@ structure RunStats where
   steps : Nat := 0
   haltStack : Nat := 0
   gcs : Array (Nat × Nat) := #[]
+  /-- the run ended at one of the machine's limits (stack / frame count at a `Call`) -/
+  limit : Bool := false
 
 partial def runInstr (c : Code) (budget : Nat) (s : VM) (st : RunStats) : Outcome × RunStats :=
   if budget = 0 then (.budget s, st) else
@@ -24,7 +26,11 @@ partial def runInstr (c : Code) (budget : Nat) (s : VM) (st : RunStats) : Outcom
       else st
     runInstr c (budget - 1) s' st
   | .halt v s' => (.value v s', st)
-  | .error e s' => (.error e s', st)
+  | .error e s' =>
+    let atCall := match decodeAt c s.ip with
+      | some (.call _) => true
+      | _ => false
+    (.error e s', { st with limit := atCall && e == .index })
   | .fault site => (.fault site, st)
 
 def liveCells (h : Heap) : Nat := h.cells.foldl (fun n c => match c with | .freed => n | _ => n + 1) 0
@@ -39,7 +45,7 @@ def evalTextX (cc : CharClass) (budget : Nat) (src : Text) : String :=
       let (o, st) := runInstr bc.code budget (VM.start {} bc) {}
       let gcs := ",".intercalate (st.gcs.toList.map fun p => toString p.1 ++ "/" ++ toString p.2)
       let tail (live : Nat) := " # steps=" ++ toString st.steps ++ " halt=" ++ toString st.haltStack ++
-        " gc=" ++ toString st.gcs.size ++ ":" ++ gcs ++ " live=" ++ toString live
+        " gc=" ++ toString st.gcs.size ++ ":" ++ gcs ++ " live=" ++ toString live ++ (if st.limit then " limit=1" else "")
       match o with
       | .value v s =>
         let s' := finishValue v s
